@@ -240,6 +240,11 @@ def _run_sync(api_url, alerts_dir, once):
             """Monitor individual monitor."""
             if (event is not None and event.type == 'DELETED') or stat is None:
                 _LOGGER.info('Removing watch on deleted monitor: %s', name)
+                state['monitors'].pop(name, None)
+                # The monitor may have been created again already, in which
+                # case the children watch will not see it as missing.
+                if zkclient.exists(z.path.appmonitor(name)):
+                    _watch_monitor(name)
                 return
 
             try:
